@@ -168,4 +168,25 @@ def headerInput (o : Opts) (cfg : Cfg) (ts : Nat) (m : Msg) : Bytes :=
 def sign (o : Opts) (sigOf : Bytes → Bytes) (cfg : Cfg) (ts : Nat) (m : Msg) : Msg :=
   { m with mh := insertRaw m.mh (HV.new sigName (headerValue cfg ts (bhOf o cfg m) (sigOf (headerInput o cfg ts m)))) }
 
+/-! ### the shape of the header fields lettre emits (hypothesis of the header theorems, checked per case by the driver) -/
+
+/-- a folded field value: every CR starts a CRLF that is followed by SP / HTAB (a fold); no other CR, no other LF -/
+def wfValue : Bytes → Bool
+  | 13 :: 10 :: c :: r => isWsp c && wfValue (c :: r)
+  | 13 :: _ => false
+  | 10 :: _ => false
+  | _ :: r => wfValue r
+  | [] => true
+
+/-- a field as `Headers` holds it: a name without colon that neither starts nor ends with a blank, a well-folded value
+    that is not folded right after the blanks following the colon -/
+def mailFieldOk (h : HV) : Bool :=
+  h.name.all (· != 58) && !h.name.isEmpty && !(h.name.head?.map isWsp).getD true && !(h.name.getLast?.map isWsp).getD true &&
+  wfValue h.encoded && ((h.encoded.dropWhile isWsp).head? != some 13)
+
+/-- no two fields with the same name (ignoring case) -/
+def uniqueNames : List HV → Bool
+  | [] => true
+  | h :: hs => hs.all (fun g => !eqName h.name g.name) && uniqueNames hs
+
 end LV.Dkim
